@@ -127,6 +127,12 @@ func genConc(job *Job, prop string, seed, idx uint64) *RunOutcome {
 		all := append(append([]string{}, ids...), spare...)
 		return all[r.Intn(len(all))]
 	}
+	// swarm: a third of the runs concentrate on predicate writers racing with
+	// updates that move documents between the predicates
+	weights := []int{4, 3, 7, 4, 2, 2, 1, 7, 3, 2, 1}
+	if r.Chance(0.35) {
+		weights = []int{1, 6, 9, 5, 1, 1, 0, 5, 2, 1, 0}
+	}
 	for c := 0; c < nClients; c++ {
 		nOps := r.Range(2, 7)
 		if nClients > 5 {
@@ -134,7 +140,7 @@ func genConc(job *Job, prop string, seed, idx uint64) *RunOutcome {
 		}
 		var ops []Op
 		for i := 0; i < nOps; i++ {
-			switch r.Pick([]int{5, 4, 4, 2, 2, 2, 1, 7, 3, 3, 1}) {
+			switch r.Pick(weights) {
 			case 0: // insert batch with a unique tag
 				k := r.Range(1, 3)
 				tag := u("b")
@@ -148,11 +154,15 @@ func genConc(job *Job, prop string, seed, idx uint64) *RunOutcome {
 				}
 				ops = append(ops, op)
 			case 1:
-				ops = append(ops, Op{K: "UpdateById", Coll: concColl, ID: anyID(), Upd: map[string]val.V{"v": val.Wrap(u("p"))}, UpdStyle: updStyles[r.Intn(len(updStyles))]})
+				upd := map[string]val.V{"v": val.Wrap(u("p"))}
+				if r.Chance(0.45) {
+					upd["g"] = val.Wrap(int64(r.Intn(3)))
+				}
+				ops = append(ops, Op{K: "UpdateById", Coll: concColl, ID: anyID(), Upd: upd, UpdStyle: updStyles[r.Intn(len(updStyles))]})
 			case 2:
 				upd := map[string]val.V{"u": val.Wrap(u("u"))}
-				if r.Chance(0.3) {
-					upd["g"] = val.Wrap(int64(r.Intn(3))) // rewrites the indexed / filtered field
+				if r.Chance(0.55) {
+					upd["g"] = val.Wrap(int64(r.Intn(3))) // rewrites the indexed / filtered field: documents move between the ranges other clients scan
 				}
 				ops = append(ops, Op{K: "Update", Q: qOf(), Upd: upd})
 			case 3:
@@ -540,6 +550,9 @@ func runConc(rf *RunFile) *RunOutcome {
 	var sseed uint64
 	fmt.Sscan(rf.Cfg["schedSeed"], &sseed)
 	sr := rng.New(sseed)
+	// swarm over scheduling policies: from frequent switches to long bursts in
+	// which whole operations nest inside another client's transaction
+	baseStay := []float64{0.3, 0.6, 0.6, 0.85, 0.95}[sr.Intn(5)]
 	replaying := len(rf.Schedule) > 0
 	pos := 0
 	last := -1
@@ -580,9 +593,9 @@ func runConc(rf *RunFile) *RunOutcome {
 		if pick < 0 {
 			// continue the same client more often than not, but preempt a client that
 			// sits inside a write transaction with writes issued half of the time
-			stay := 0.6
-			if last >= 0 && cr.clients[last].atCall && cr.clients[last].pendUpd {
-				stay = 0.45
+			stay := baseStay
+			if last >= 0 && cr.clients[last].atCall && cr.clients[last].pendUpd && cr.clients[last].pending == wrap.KCommit {
+				stay *= 0.6 // about to commit a write transaction: a good moment to let the others in
 			}
 			if last >= 0 && sr.Chance(stay) {
 				for _, id := range cand {
